@@ -49,6 +49,8 @@ def obligations(tier):
         v("stack", "ExecuteContext::exit_scope", "leaving a scope pops exactly the top frame, never a locked one", "vm/src/thread.rs::ExecuteContext::exit_scope"),
         v("compiler", "compile_primitive::or(C07)", "tail position is propagated into the right operand of `||` (so a recursive call there is a TailCall and runs in constant stack)", "vm/src/compiler.rs::compile_primitive (|| block)"),
         v("compiler", "compile_primitive::and(C07)", "tail position is propagated into the right operand of `&&`", "vm/src/compiler.rs::compile_primitive (&& block)"),
+        dict(engine="verus", unit="compiler", function="compile_::match_alternative_body", name="C07/compiler/match_alternative_inherits_tail_position", source="vm/src/compiler.rs::Compiler::compile_ (Expr::Match, the statement compiling an alternative's body)",
+             clause="the body of every match alternative is compiled with the tail flag of the whole match, whatever its pattern binds"),
         v("compiler", "Instruction::adjust", "adjust(i) == documented stack effect of i", "vm/src/types.rs::Instruction::adjust"),
         v("compiler", "FunctionEnv::increase_stack", "stack_size += n; max_stack_size = max(old max, new size); invariant max >= size", "vm/src/compiler.rs::FunctionEnv::increase_stack"),
         v("compiler", "FunctionEnv::emit", "size' = size + effect(i) (Slide(0) is dropped); instruction appended; max monotone and >= size", "vm/src/compiler.rs::FunctionEnv::emit"),
